@@ -57,6 +57,55 @@ theorem C01_quorum_overlap (vs S S' : List Nat) (hS : S.Nodup) (hS' : S'.Nodup)
   have hlen : vs.length < S.length + S'.length := by omega
   exact Z.Elect.inter_of_card vs S S' hS hS' hv hv' hlen
 
+/-- The vote the certificate compares with the real node's `Vote` is well defined: in every reachable
+    state all members of `votesIn camp voted j t` (the node itself if it campaigned in `t`, the candidates
+    of its recorded grants of `t`) are equal - a node votes for at most one candidate per term. -/
+theorem C01_vote_of_term_unique (vs : List Nat) {s : St} (r : Reach vs s) (j t x y : Nat)
+    (hx : x ∈ votesIn s.camp s.voted j t) (hy : y ∈ votesIn s.camp s.voted j t) : x = y := by
+  have i0 := (reach_inv0 vs r).1
+  have key : ∀ z, z ∈ votesIn s.camp s.voted j t →
+      (z = j ∧ (j, t) ∈ s.camp) ∨ (j, t, z) ∈ s.voted := by
+    intro z hz
+    unfold votesIn at hz
+    rcases List.mem_append.mp hz with h | h
+    · by_cases hc : (j, t) ∈ s.camp
+      · simp [hc] at h; exact Or.inl ⟨h, hc⟩
+      · simp [hc] at h
+    · obtain ⟨⟨q, u, c⟩, hm, rfl⟩ := List.mem_map.mp h
+      have hf := List.mem_filter.mp hm
+      have : q = j ∧ u = t := by simpa using hf.2
+      exact Or.inr (this.1 ▸ this.2 ▸ hf.1)
+  rcases key x hx with ⟨rfl, hc⟩ | hvx <;> rcases key y hy with ⟨rfl, hc'⟩ | hvy
+  · rfl
+  · exact absurd hc (i0.selfVote _ _ _ hvy)
+  · exact absurd hc' (i0.selfVote _ _ _ hvx)
+  · exact i0.votedFun j t x y hvx hvy
+
+/-- what the certificate compares with the vote in the real storage object (the flushed campaigns and
+    grants) is part of the volatile record of the same term: a durable vote is a vote, so it is unique too -/
+theorem C01_durable_vote_is_vote (vs : List Nat) {s : St} (r : Reach vs s) (j t x : Nat)
+    (hx : x ∈ votesIn s.scamp s.svoted j t) : x ∈ votesIn s.camp s.voted j t := by
+  have d1 := (reach_invD vs r).2.1
+  unfold votesIn at hx ⊢
+  rcases List.mem_append.mp hx with h | h
+  · by_cases hc : (j, t) ∈ s.scamp
+    · simp [hc] at h
+      have := d1.scSub _ hc
+      simp [this, h]
+    · simp [hc] at h
+  · obtain ⟨e, hm, rfl⟩ := List.mem_map.mp h
+    have hf := List.mem_filter.mp hm
+    exact List.mem_append.mpr (Or.inr (List.mem_map.mpr ⟨e, List.mem_filter.mpr ⟨d1.svSub _ hf.1, hf.2⟩, rfl⟩))
+
+/-- non-trivial instance: node 2 grants candidate 1 in term 1 and flushes - the run is accepted (hence reachable),
+    the compared lists are `[1]` (volatile and durable), and a second grant of term 1 is rejected -/
+example : (run [1, 2, 3] init [.campaign 1 1, .flush 1, .campaign 3 1, .flush 3, .grant 2 1 1, .flush 2]).map
+    (fun s => (votesIn s.camp s.voted 2 (s.term 2), votesIn s.scamp s.svoted 2 (s.dterm 2), votesIn s.camp s.voted 3 (s.term 3)))
+    = some ([1], [1], [3]) := by decide
+example : (run [1, 2, 3] init [.campaign 1 1, .flush 1, .campaign 3 1, .flush 3, .grant 2 1 1, .flush 2, .grant 2 1 3]).isSome
+    = false := by decide
+example : voteAgrees [1] 1 = true ∧ voteAgrees [1] 0 = false ∧ voteAgrees [] 1 = false ∧ voteAgrees [] 0 = true := by decide
+
 /-- second, message-level proof (vote requests and responses as messages of a monotone history) -/
 theorem C01_election_safety_message_level (vs : List Nat) (h0 : 0 ∉ vs) {s} (r : Z.Elect.Reach vs s)
     (c c' t : Nat) (h1 : (c, t) ∈ s.elected) (h2 : (c', t) ∈ s.elected) : c = c' :=
